@@ -151,9 +151,18 @@ func runMode(ctx context.Context, c *Case, m Mode, dir string) (res ModeResult) 
 	if m.Tx == "file" {
 		fkState = false
 	}
-	res.TieCase, res.TieSkip = tieCase(ctx, before, cur, changes, fkState, inTx)
-	applyErr := applyLikeCLI(ctx, client, changes, m.Tx)
+	kk := -1
+	if m.Tx == "prefix" {
+		kk, inTx = m.K, false
+	}
+	res.TieCase, res.TieSkip = tieCase(ctx, before, cur, changes, fkState, inTx, kk)
+	applyErr := applyLikeCLI(ctx, client, changes, m.Tx, m.K)
 	res.ErrClass = classify(applyErr)
+	if applyErr == errPrefix {
+		res.ErrClass = "prefix"
+	} else if m.Tx == "prefix" && applyErr != nil {
+		res.TieSkip = "prefix-statement-refused"
+	}
 	if applyErr != nil {
 		res.ErrText = applyErr.Error()
 	}
@@ -177,6 +186,21 @@ func runMode(ctx context.Context, c *Case, m Mode, dir string) (res ModeResult) 
 	}
 	if res.Stats["rowid-alias-null-assigned"] > 0 {
 		res.TieSkip = "rowid-alias-null"
+	}
+	if m.Tx == "prefix" {
+		// the temporary twin of a table may already hold rowids the engine assigned
+		for n, ta := range after.Tables {
+			tb := before.Tables[strings.TrimPrefix(n, "new_")]
+			if !strings.HasPrefix(n, "new_") || tb == nil {
+				continue
+			}
+			for ai := range ta.Cols {
+				bi := tb.colIdx(ta.Cols[ai].Name)
+				if isRowidAlias(ta, ai) && len(tb.Rows) > 0 && (bi < 0 || (!isRowidAlias(tb, bi) && hasNull(tb, bi))) {
+					res.TieSkip = "rowid-alias-null"
+				}
+			}
+		}
 	}
 	if res.TieSkip == "" && m.Tx == "rawtx" && m.FK && typeChanged(before, after) {
 		// foreign-key matching on masked (converted) values is meaningless
@@ -263,8 +287,8 @@ func main() {
 }
 
 var apiModes = []Mode{
-	{"mem", true, "none"}, {"mem", true, "file"}, {"mem", false, "none"}, {"mem", false, "file"},
-	{"file", true, "file"}, {"file", true, "none"}, {"file", false, "file"},
+	{Store: "mem", FK: true, Tx: "none"}, {Store: "mem", FK: true, Tx: "file"}, {Store: "mem", FK: false, Tx: "none"}, {Store: "mem", FK: false, Tx: "file"},
+	{Store: "file", FK: true, Tx: "file"}, {Store: "file", FK: true, Tx: "none"}, {Store: "file", FK: false, Tx: "file"},
 }
 
 type caseResult struct {
@@ -326,7 +350,9 @@ func report(w *out.W, cr caseResult, dbg, viol *os.File) {
 		if r.NChanges == 0 {
 			w.Count("no-changes")
 		}
-		if r.ErrClass != "" {
+		if r.ErrClass == "prefix" {
+			w.Count("prefix-run")
+		} else if r.ErrClass != "" {
 			w.Count(r.ErrClass)
 			if r.ErrClass == "refused-no-such-table" || r.ErrClass == "refused-other" || r.ErrClass == "refused-syntax" || r.ErrClass == "refused-schema-error" || r.ErrClass == "refused-no-such-column" {
 				fmt.Fprintf(dbg, "%s %s edits=%v: %s\n", id, r.ErrClass, c.Edits, r.ErrText)
@@ -370,7 +396,7 @@ func report(w *out.W, cr caseResult, dbg, viol *os.File) {
 }
 
 func runAPI(ctx context.Context, w *out.W, tier, tmp, outDir, only string) {
-	n := 500
+	n := 400
 	if tier == "thorough" {
 		n = 12000
 	}
